@@ -2,15 +2,21 @@ import Driver.Proto
 import Driver.OpsTime
 import Driver.OpsBattery
 import Driver.OpsFail
+import Driver.OpsAcct
 
 namespace Driver
 
 structure DState where
   bat : Option BatCtx := none
+  acct : List Relsad.BusAcc := []
 
 def step (st : DState) (line : String) : DState × String :=
   match line.splitOn " " with
   | "time" :: args => (st, (opsTime args).getD "bad-op")
+  | "acct" :: args =>
+      match opsAcct st.acct args with
+      | some (b, out) => ({ st with acct := b }, out)
+      | none => (st, "bad-op")
   | "fail" :: args => (st, (opsFail args).getD "bad-op")
   | "bat" :: args =>
       match opsBattery st.bat args with
